@@ -2381,6 +2381,51 @@ fn exec_protos(seed: u64, rows: &[RowSpec], out: &mut CaseOut) {
         out.stat(match found { 0 => "core_defs_0", 16 => "core_defs_16", _ => "core_defs_some" });
         out.req(format!("C13 core {}", model_graph_tokens(rows)), format!("ok {}", reply.join(",")));
     }
+    // --- the small look-ups: has_subtype, has_name, all_matching_names ------------------------------------
+    {
+        let mut names: Vec<String> = Vec::new();
+        for _ in 0..(2 + rng.below(6)) {
+            names.push(match rng.below(6) {
+                0 => "neverDefined".to_string(),
+                1 => rng.pick(&CORE).to_string(),
+                2 if !names.is_empty() => rng.pick(&names).clone(),
+                _ => rng.pick(&defined).clone(),
+            });
+        }
+        // undefined names that defs list in `is` have subtypes too
+        for (_, items) in o.is.iter().take(3) {
+            if let Some(b) = items.first() {
+                names.push(b.clone());
+            }
+        }
+        let mut bits = Vec::new();
+        for n in &names {
+            let sym = Symbol::from(n.as_str());
+            let got = ns.has_subtype(&sym);
+            if got != !o.sub(n).is_empty() {
+                out.fail("has_subtype", format!("has_subtype({n:?}) = {got}, the defs listing it in `is` are {:?}", o.sub(n)));
+            }
+            if got != !ns.subtypes_of(&sym).is_empty() {
+                out.fail("has_subtype", format!("has_subtype({n:?}) = {got} but subtypes_of has {} entries", ns.subtypes_of(&sym).len()));
+            }
+            if ns.has_name(n) != o.defined(n) || ns.has(&sym) != o.defined(n) {
+                out.fail("has_name", format!("has_name({n:?}) = {}, has = {}, the grid defines it: {}", ns.has_name(n), ns.has(&sym), o.defined(n)));
+            }
+            bits.push(if got { "1" } else { "0" });
+        }
+        let refs: Vec<&str> = names.iter().map(|s| s.as_str()).collect();
+        let got: Vec<String> = ns.all_matching_names(&refs).iter().map(|d| d.def_name().clone()).collect();
+        let want: Vec<String> = names.iter().filter(|n| o.defined(n)).cloned().collect();
+        if got != want {
+            out.fail("all_matching_names", format!("all_matching_names({names:?}) = {got:?}, the defined ones in order are {want:?}"));
+        }
+        let mut t = Vec::new();
+        write_names(&names, &mut t);
+        out.req(
+            format!("C13 small {} {}", model_graph_tokens(rows), t.join(" ")),
+            format!("ok {}#{}", bits.join(","), got.iter().map(|s| vx::h(s)).collect::<Vec<_>>().join(",")),
+        );
+    }
     unsafe { free_ns(ns) };
 }
 
